@@ -224,16 +224,21 @@ Date::Date(Zone z, int y, int m, int d, int h, int mn, int s)
 #define daysInYear(y)   ((y)%4 == 0 && ((y)%100 || ((y)%400 == 0))? 366 : 365)
 #define timeFromYearAsDays(y)  (365*((y)-1970)+floor(((y)-1969)/4.0)-floor(((y)-1901)/100.0)+floor(((y)-1601)/400.0))
 #define timeFromYear(y) (timeFromYearAsDays(y) * secsInDay)
-#define isLeapYear(t)   (daysInYear(yearFromTime(t)) == 366)
-#define dayWithinYear(t, year) (floor((t)/secsInDay) - timeFromYearAsDays(year))
 
-static int yearFromTime(double t)
+// The instant as a whole number of milliseconds (rounded to nearest). Every calendar field and the
+// millisecond field are derived from this one value, so they always describe the same instant
+static inline double wholeMilliseconds(double t)
+{
+	return floor(t * 1000.0 + 0.5);
+}
+
+static int yearFromDays(int days) // days since 1970-01-01
 {
 	static const int d4y = 365 * 4 + 1;     // 4 year block with 1 leap
 	static const int d100y = d4y * 25 - 1;  // 100 year block (except multiples of 400)
 	static const int d400y = 4 * d100y + 1; // 400 year block (one more leap for the first year in the block)
 
-	int d = (int)floor(t * (1 / 86400.0)) + d400y * 4 + d100y + 1 + d100y * 2 + d4y - 1 + 16 * d4y + 2 * 365 + 1;
+	int d = days + d400y * 4 + d100y + 1 + d100y * 2 + d4y - 1 + 16 * d4y + 2 * 365 + 1;
 	//(1970 = 4 * 400 + 3 * 100 + 17 * 4 + 2)
 	if (d > 695421 && d < 766645) // 1904 - 2099 : all d4y blocks
 	{
@@ -329,10 +334,14 @@ DateData Date::calc(double t)
 		memset(&date, 0, sizeof(date));
 		return date;
 	}
-	t += 0.0005; // round to the millisecond before splitting, so date and time of day agree
-	date.year = yearFromTime(t);
-	int leap = isLeapYear(t) ? 1 : 0;
-	int yd = (int)dayWithinYear(t, date.year);
+	// round to the millisecond once, then split that whole number exactly: date, time of day and
+	// milliseconds agree for every instant (also within rounding error of x.9995 s and of a day or year end)
+	double secs = floor(wholeMilliseconds(t) / 1000.0);
+	double days = floor(secs / 86400.0);
+	int    sod = (int)(secs - days * 86400.0); // second of the day
+	date.year = yearFromDays((int)days);
+	int leap = (daysInYear(date.year) == 366) ? 1 : 0;
+	int yd = (int)(days - timeFromYearAsDays(date.year));
 	date.month = 1;
 
 	for (int i = yd / 32; i < 13; i++)
@@ -345,15 +354,10 @@ DateData Date::calc(double t)
 	}
 	date.day = yd - month_days[leap][date.month] + 1;
 
-	double dt = ((t / 86400.0) - floor(t / 86400.0));
-	int    h = (int)floor(24 * dt);
-	int    m = (int)floor((24 * dt - h) * 60);
-	int    s = (int)floor(((24 * dt - h) * 60 - m) * 60.0);
-	
-	date.hours = h;
-	date.minutes = m;
-	date.seconds = s;
-	date.weekDay = ((int)floor(t / 86400.0) - 3) % 7;
+	date.hours = sod / 3600;
+	date.minutes = (sod / 60) % 60;
+	date.seconds = sod % 60;
+	date.weekDay = ((int)days - 3) % 7;
 	if (date.weekDay < 0)
 		date.weekDay += 7;
 	return date;
@@ -363,7 +367,8 @@ String Date::toString(Date::Format fmt, bool utc) const
 {
 	if (_t != _t)
 		return "?";
-	DateData d = calc(_t + (utc ? 0 : localOffset()));
+	double   t = _t + (utc ? 0 : localOffset());
+	DateData d = calc(t);
 	String   s;
 	switch (fmt)
 	{
@@ -372,7 +377,7 @@ String Date::toString(Date::Format fmt, bool utc) const
 		break;
 	case FULL:
 		s = String::f("%04i-%02i-%02iT%02i:%02i:%02i.%03i", d.year, d.month, d.day, d.hours, d.minutes, d.seconds,
-		              int(1000 * fract(_t) + 0.5) % 1000);
+		              int(wholeMilliseconds(t) - 1000.0 * floor(wholeMilliseconds(t) / 1000.0)));
 		break;
 	case SHORT:
 		s = String(15, "%04i%02i%02iT%02i%02i%02i", d.year, d.month, d.day, d.hours, d.minutes, d.seconds);
